@@ -1119,6 +1119,11 @@ class NpModule(object):
         if isinstance(a, carr.CArr) or isinstance(b, carr.CArr):
             return carr.ufunc(I, fr, 'eq', [a, b])      # K8: exact equality over the reals
         if I.scalar_kind(a) is not None and I.scalar_kind(b) is not None:
+            if getattr(fr.st, 'isclose_with_tolerance', False) and (core.is_sym(a) or core.is_sym(b)):
+                # faithful tolerance semantics (used where the property is about exact relations, e.g. equality / hash coherence)
+                rtol, atol = kwargs.get('rtol', args[2] if len(args) > 2 else 1e-5), kwargs.get('atol', args[3] if len(args) > 3 else 1e-8)
+                a_, b_ = core.S.lift(a), core.S.lift(b)
+                return abs(a_ - b_) <= core.S.lift(atol) + core.S.lift(rtol) * abs(b_)
             return core.sc_eq(a, b) if core.is_sym(a) or core.is_sym(b) else abs(a - b) <= 1e-8 + 1e-5 * abs(b)
         raise Unsupported('np.isclose on arrays')
 
